@@ -65,6 +65,8 @@ def _e_pool() -> Tuple[List[str], List[str]]:
     # values the regular docutils -> HTML -> stan conversion cannot carry (an entity the XML loader does not know, XML noncharacters):
     # they are shown through the fallback renderer
     exprs += ["'a\\xa0b'", "('x\\xa0y', 1 + b)", "['\\uffff', a * 2]", "{'k\\ufffe': f('\\xa0', b)}", "'\xa0 \xa0' + b", "b'\\xa0' + c", "f'{a}\\xa0'"]
+    # control characters (the page cannot carry them raw: they are shown as escapes, which must read back as the same characters)
+    exprs += ["'ring\\x07'", "'a\\x01b'", "'\\x0f1'", "'\\x0e\\x08' + b", "('\\x02', '\\x1f', '\\x7f')", "f(k='\\x03')"]
     return exprs, list(signature.ANNOTATIONS) + ["Literal['a\\xa0b']", "Dict['str', Literal['\\uffff']]"]
 
 
